@@ -58,6 +58,8 @@ def verdict(eng, pid, level, rule, extra_cov=None, assumptions=None, exhaustive=
         "other_property_rejections": len(others),
         "other_property_rejection_kinds": sorted({"%s:%s" % ("/".join(v["props"]), v["clause"]) for v in others})[:20],
         "known_findings_hit": len(known),
+        "impl_drift": st.get("impl_drift", 0),
+        "impl_drift_kinds": st.get("impl_drift_kinds", []),
     }
     if extra_cov:
         cov.update(extra_cov)
